@@ -34,6 +34,19 @@ pub trait VSource {
                 && final(self).consumed() == old(self).consumed() + old(buf)@.len(),
             old(self).inbox().len() < old(buf)@.len() ==> r is Err;
 
+    /// tokio::io::AsyncReadExt::read (de-asynced, N7): delivers SOME prefix of what is there - possibly fewer bytes than
+    /// the buffer holds, possibly none (end of stream)
+    fn read(&mut self, buf: &mut [u8]) -> (r: Result<usize>)
+        ensures
+            final(self).writes() == old(self).writes(),
+            final(buf)@.len() == old(buf)@.len(),
+            final(self).consumed() >= old(self).consumed(),
+            r matches Ok(n) ==> n <= old(buf)@.len() && n <= old(self).inbox().len()
+                && (forall|i: int| 0 <= i < n ==> final(buf)@[i] == old(self).inbox()[i])
+                && (forall|i: int| n <= i < old(buf)@.len() ==> final(buf)@[i] == old(buf)@[i])
+                && final(self).inbox() =~= old(self).inbox().skip(n as int)
+                && final(self).consumed() == old(self).consumed() + n;
+
     /// `read_exact(&mut v[lo..hi])` (N16): fills exactly that sub-range of the vector
     fn read_exact_range(&mut self, v: &mut Vec<u8>, lo: usize, hi: usize) -> (r: Result<usize>)
         requires lo <= hi <= old(v)@.len(),
